@@ -173,8 +173,8 @@ impl Check for C14 {
     }
     fn runs(&self, tier: Tier) -> u64 {
         match tier {
-            Tier::Quick => 40_000,
-            Tier::Thorough => 600_000,
+            Tier::Quick => 100_000,
+            Tier::Thorough => 1_500_000,
         }
     }
     fn generate(&self, run_seed: u64, index: u64, tier: Tier) -> Case {
@@ -424,8 +424,8 @@ impl Check for C15 {
     }
     fn runs(&self, tier: Tier) -> u64 {
         match tier {
-            Tier::Quick => 8_000,
-            Tier::Thorough => 100_000,
+            Tier::Quick => 16_000,
+            Tier::Thorough => 200_000,
         }
     }
     fn generate(&self, run_seed: u64, _index: u64, tier: Tier) -> Case {
